@@ -99,7 +99,9 @@ func (bl *BitList) GetBytes() []byte {
 func (bl *BitList) IterateBytes() <-chan byte {
 	res := make(chan byte)
 
+	verifEmit("go.spawn", bl, 0, 0)
 	go func() {
+		defer verifEmit("go.exit", bl, 0, 0)
 		c := bl.count
 		shift := 24
 		i := 0
